@@ -26,33 +26,38 @@ Section Hom.
 
   (* ---- the pieces of tables_ok ---------------------------------------------- *)
   Lemma ok_specials : specials_ok T = true.
-  Proof. pose proof HT as HT'. unfold tables_ok in HT'. do 5 (apply andb_prop in HT' as [HT' ?]). assumption. Qed.
+  Proof.
+    pose proof HT as HT'. unfold tables_ok in HT'. do 6 (apply andb_prop in HT' as [HT' ?]).
+    match goal with H : specials_ok T = true |- _ => exact H end.
+  Qed.
+  Lemma ok_special_names : special_names_ok T = true.
+  Proof. pose proof HT as HT'. unfold tables_ok in HT'. do 6 (apply andb_prop in HT' as [HT' ?]). exact HT'. Qed.
   Lemma ok_binop op : binop_ok T op = true.
   Proof.
-    pose proof HT as HT'. unfold tables_ok in HT'. do 5 (apply andb_prop in HT' as [HT' ?]).
+    pose proof HT as HT'. unfold tables_ok in HT'. do 6 (apply andb_prop in HT' as [HT' ?]).
     match goal with H : forallb (binop_ok T) _ = true |- _ => rewrite forallb_forall in H; apply H end.
     apply all_binops_complete.
   Qed.
   Lemma ok_unop op : unop_ok T op = true.
   Proof.
-    pose proof HT as HT'. unfold tables_ok in HT'. do 5 (apply andb_prop in HT' as [HT' ?]).
+    pose proof HT as HT'. unfold tables_ok in HT'. do 6 (apply andb_prop in HT' as [HT' ?]).
     match goal with H : forallb (unop_ok T) _ = true |- _ => rewrite forallb_forall in H; apply H end.
     apply all_unops_complete.
   Qed.
   Lemma ok_builtin f : builtin_ok T f = true.
   Proof.
-    pose proof HT as HT'. unfold tables_ok in HT'. do 5 (apply andb_prop in HT' as [HT' ?]).
+    pose proof HT as HT'. unfold tables_ok in HT'. do 6 (apply andb_prop in HT' as [HT' ?]).
     match goal with H : forallb (builtin_ok T) _ = true |- _ => rewrite forallb_forall in H; apply H end.
     apply all_bfuns_complete.
   Qed.
   Lemma ok_inplace op : In op inplace_ops -> inplace_ok T op = true.
   Proof.
-    pose proof HT as HT'. unfold tables_ok in HT'. do 5 (apply andb_prop in HT' as [HT' ?]).
+    pose proof HT as HT'. unfold tables_ok in HT'. do 6 (apply andb_prop in HT' as [HT' ?]).
     match goal with H : forallb (inplace_ok T) _ = true |- _ => rewrite forallb_forall in H; apply H end.
   Qed.
   Lemma ok_access ci : In ci (t_classes T) -> access_ok T ci = true.
   Proof.
-    pose proof HT as HT'. unfold tables_ok in HT'. do 5 (apply andb_prop in HT' as [HT' ?]).
+    pose proof HT as HT'. unfold tables_ok in HT'. do 6 (apply andb_prop in HT' as [HT' ?]).
     match goal with H : forallb (access_ok T) _ = true |- _ => rewrite forallb_forall in H; apply H end.
   Qed.
 
@@ -300,7 +305,7 @@ Section Hom.
     - discriminate.
     - destruct (build T p1); [|discriminate]. destruct (build T p2); [|discriminate].
       unfold apply_access, obind. repeat match goal with |- context [match ?x with _ => _ end] => destruct x end; discriminate.
-    - destruct (build T p); [|discriminate].
+    - destruct (refused T name); [discriminate|]. destruct (build T p); [|discriminate].
       unfold apply_access, obind. repeat match goal with |- context [match ?x with _ => _ end] => destruct x end; discriminate.
     - destruct (build T p1); [|discriminate]. destruct (build T p2); [|discriminate].
       intros H. apply apply_bin_shape in H as (? & ? & ? & ?). discriminate.
@@ -319,7 +324,7 @@ Section Hom.
     - now intros [= -> ->].
     - destruct (build T p1); [|discriminate]. destruct (build T p2); [|discriminate].
       unfold apply_access, obind. repeat match goal with |- context [match ?x with _ => _ end] => destruct x end; discriminate.
-    - destruct (build T p); [|discriminate].
+    - destruct (refused T name); [discriminate|]. destruct (build T p); [|discriminate].
       unfold apply_access, obind. repeat match goal with |- context [match ?x with _ => _ end] => destruct x end; discriminate.
     - destruct (build T p1); [|discriminate]. destruct (build T p2); [|discriminate].
       intros H. apply apply_bin_shape in H as (? & ? & ? & ?). discriminate.
@@ -378,6 +383,7 @@ Section Hom.
       + cbn [wf]. rewrite Hr, Hwo, Hwk. rewrite specials_cls_ok; auto using ok_specials. cbn; auto 10.
       + cbn [Refs.value Refs.pyeval]. now rewrite Hvo, Hvk.
     - (* attribute *)
+      destruct (refused T n) eqn:Eref; [discriminate|].
       destruct (build T p) as [o'|] eqn:E1; [|discriminate].
       destruct (IHp _ E1) as [Hwo Hvo].
       pose proof (apply_access_ref _ _ _ _ Hb) as Hr.
@@ -446,6 +452,23 @@ Section Hom.
       + cbn [Refs.value Refs.pyeval]. rewrite !fix_vmap.
         rewrite (fix_vmap_kw (fun x => value x en)), (fix_vmap_kw (fun x => pyeval x en)). now rewrite Hvf, Hva, Hvk.
   Qed.
+  (* ---- every ordinary attribute name can be deferred --------------------------------------------- *)
+  Lemma refused_dunder n : refused T n = true -> is_dunder n = true.
+  Proof.
+    unfold refused. intros H. apply existsb_exists in H as (m & Hin & Heq). apply pystr_eqb_eq in Heq. subst m.
+    pose proof ok_special_names as Hs. unfold special_names_ok in Hs. rewrite forallb_forall in Hs. now apply Hs.
+  Qed.
+
+  Theorem attr_total o o' n :
+    build T o = Some o' -> wf T o' = true -> is_ref o' = true -> is_dunder n = false ->
+    build T (PAttr o n) =
+    Some (match o' with TTop _ true => TItem o' (TConst (LStr n)) | _ => TAttr o' (TConst (LStr n)) end).
+  Proof.
+    intros Hb Hw Hr Hd. cbn [build]. destruct (refused T n) eqn:Eref.
+    - apply refused_dunder in Eref. congruence.
+    - rewrite Hb. cbn [obind]. apply apply_getattr_spec; auto. now apply wf_cls_ok.
+  Qed.
+
   (* ---- in-place operators ------------------------------------------------------------------------ *)
   Notation inplace := (Refs.inplace V E of_lit pyop T).
   Notation assigned := (Refs.assigned V E of_lit pyop pyun pybuiltin pycall getitem getattr nan is_zde broken T).
